@@ -508,3 +508,244 @@ Proof.
   - cbn [sec_insts] in Hx. apply in_flat_map in Hx as (f & Hf & Hx). rewrite Forall_forall in Wfns.
     apply (wc_fn_good Cg f x (Wfns f Hf) Hx).
 Qed.
+
+(** * the real descriptors and the real loader *)
+Definition rclass : inst -> token := iclass C05_inst.class_of.
+
+Lemma hand_classes :
+  C05_inst.class_of OP_FUNCTION = TFunction /\ C05_inst.class_of OP_FUNCTION_END = TFunctionEnd /\
+  C05_inst.class_of OP_FUNCTION_PARAMETER = TParameter /\ C05_inst.class_of OP_LABEL = TLabel.
+Proof. vm_compute. split; [|split; [|split]]; reflexivity. Qed.
+
+(** the classification restricted to the declared opcodes: an undeclared
+    opcode gets a token no container accepts, so a module well-classified for
+    [declared_class] contains declared opcodes only *)
+Definition declared_class (opc : N) : token :=
+  if memN opc opcodes then C05_inst.class_of opc else TModule 11.
+
+Lemma desc_ok_declared d :
+  memN (d_opcode d) opcodes = true -> desc_ok declared_class d = desc_ok C05_inst.class_of d.
+Proof. intros H. unfold desc_ok, declared_class. rewrite H. reflexivity. Qed.
+
+Lemma descs_ok_declared : forallb (desc_ok declared_class) descriptors = true.
+Proof.
+  pose proof descs_ok as H1. pose proof descs_declared as H2. rewrite forallb_forall in *.
+  intros d Hd. rewrite (desc_ok_declared d (H2 d Hd)). apply (H1 d Hd).
+Qed.
+
+Lemma hand_classes_declared :
+  declared_class OP_FUNCTION = TFunction /\ declared_class OP_FUNCTION_END = TFunctionEnd /\
+  declared_class OP_FUNCTION_PARAMETER = TParameter /\ declared_class OP_LABEL = TLabel.
+Proof. vm_compute. split; [|split; [|split]]; reflexivity. Qed.
+
+Lemma declared_good i : good_tok (iclass declared_class i) -> In (i_opcode i) opcodes.
+Proof.
+  unfold iclass, declared_class. destruct (memN (i_opcode i) opcodes) eqn:E.
+  - intros _. apply memN_In. exact E.
+  - cbn [good_tok]. lia.
+Qed.
+
+Section Real.
+Variables (cs : list bcall) (s' : bstate) (os : list bout).
+Hypothesis Hrun : brun k_function_control descriptors bnew cs = Some (s', os).
+Hypothesis Hsimple : forallb simple_call cs = true.
+Hypothesis Hends : ends_closed k_function_control descriptors bnew cs.
+Hypothesis Hcomplete : complete s'.
+
+(** the built module is well-classified: every instruction sits in the
+    container the layout assigns to its opcode, blocks are label + body +
+    one final terminator, functions have def and end *)
+Theorem built_module_wc : wc_module rclass (bs_module s').
+Proof.
+  destruct hand_classes as (H1 & H2 & H3 & H4).
+  apply (built_wc C05_inst.class_of H1 H2 H3 H4 k_function_control descriptors cs s' os descs_ok Hsimple Hends Hrun Hcomplete).
+Qed.
+
+(** it contains declared opcodes only *)
+Theorem built_module_wellop : wellop (all_insts (bs_module s')).
+Proof.
+  destruct hand_classes_declared as (H1 & H2 & H3 & H4).
+  pose proof (built_wc declared_class H1 H2 H3 H4 k_function_control descriptors cs s' os
+                descs_ok_declared Hsimple Hends Hrun Hcomplete) as W.
+  intros i Hi. apply declared_good. apply (wc_module_good _ _ i W Hi).
+Qed.
+
+(** loading its instruction sequence, as the layout specification
+    prescribes, gives back exactly the module *)
+Theorem built_module_reloads :
+  spec_load (tag rclass (all_insts (bs_module s')))
+  = LCont {| l_module := bs_module s'; l_header := None; l_function := None; l_block := None |}.
+Proof. apply wc_module_reloads. exact built_module_wc. Qed.
+
+(** and so does the real loader (the arms translated from dr/loader.rs) *)
+Theorem built_module_real_load :
+  real_load (all_insts (bs_module s'))
+  = LCont {| l_module := bs_module s'; l_header := None; l_function := None; l_block := None |}.
+Proof.
+  rewrite (real_load_is_spec _ built_module_wellop). exact built_module_reloads.
+Qed.
+
+End Real.
+
+(** * the finding: end_function with a block still open *)
+Definition open_end_history : list bcall := [CBeginFunction 1 None 0 2; CBeginBlock None; CEndFunction].
+
+(** all three calls are simple and succeed, the final state is complete, the
+    module holds a block without terminator and the loader rejects it *)
+Example end_function_with_open_block_rejected :
+  forallb simple_call open_end_history = true /\
+  exists s' os, brun k_function_control descriptors bnew open_end_history = Some (s', os)
+    /\ os = [BVal 1; BVal 2; BUnit] /\ bs_fn s' = None /\ bs_blk s' = None
+    /\ real_load (all_insts (bs_module s')) = LErr UnclosedBlock.
+Proof.
+  split; [reflexivity|].
+  destruct (brun k_function_control descriptors bnew open_end_history) as [[s' os]|] eqn:E;
+    [|vm_compute in E; discriminate E].
+  exists s', os. split; [reflexivity|].
+  vm_compute in E. inversion E; subst. vm_compute. repeat split.
+Qed.
+
+(** so [bwc_step] is false without [end_closed]: the state before the third call *)
+Example end_function_with_open_block_breaks_invariant :
+  exists s s' o, bwc C05_inst.class_of s /\ sel_ok s /\
+    bstep k_function_control descriptors s CEndFunction = Some (s', o) /\ complete s' /\
+    ~ wc_module rclass (bs_module s').
+Proof.
+  destruct (brun k_function_control descriptors bnew (firstn 2 open_end_history)) as [[s os]|] eqn:E;
+    [|vm_compute in E; discriminate E].
+  destruct hand_classes as (H1 & H2 & H3 & H4).
+  assert (Hw : bwc C05_inst.class_of s).
+  { apply (bwc_run C05_inst.class_of H1 H2 H3 H4 k_function_control descriptors (firstn 2 open_end_history) bnew s os descs_ok);
+      [reflexivity| |apply bwc_new|apply sel_ok_new|exact E].
+    cbn [firstn open_end_history ends_closed]. split; [discriminate|].
+    destruct (bstep _ _ bnew _) as [[s1 o1]|]; [|exact I]. split; [discriminate|].
+    destruct (bstep _ _ s1 _) as [[s2 o2]|]; exact I. }
+  pose proof (sel_ok_run_new _ _ _ _ _ E) as Hok.
+  exists s, (fst (end_function s)), (snd (end_function s)).
+  split; [exact Hw|]. split; [exact Hok|]. split; [cbn [bstep]; destruct (end_function s); reflexivity|].
+  vm_compute in E. inversion E; subst. split; [vm_compute; split; reflexivity|].
+  intros (_ & _ & Wf). inversion Wf as [|f l ((_ & _ & Wb) & _) _]; subst.
+  inversion Wb as [|b l' (lb & body & term & _ & _ & Hi & _) _]; subst.
+  cbn in Hi. destruct body; discriminate Hi.
+Qed.
+
+(** * Step 5: the header of the finished module *)
+Definition version_word (major minor : N) : N := (major mod 256) * 65536 + (minor mod 256) * 256.
+
+(** the version word in force: the last set_version of the history, else the start value *)
+Fixpoint last_version (v : N) (cs : list bcall) : N :=
+  match cs with
+  | [] => v
+  | CSetVersion a b :: r => last_version (version_word a b) r
+  | _ :: r => last_version v r
+  end.
+
+Definition hdr_version (s : bstate) : N :=
+  match bs_header s with Some h => h_version h | None => default_version end.
+
+Lemma hdr_version_frame s s' : bs_header s' = bs_header s -> hdr_version s' = hdr_version s.
+Proof. unfold hdr_version. intros ->. reflexivity. Qed.
+
+Lemma step_header k_fc ds s c s' o :
+  sel_ok s -> bstep k_fc ds s c = Some (s', o) ->
+  match c with
+  | CSetVersion a b => hdr_version s' = version_word a b
+  | _ => bs_header s' = bs_header s
+  end.
+Proof.
+  intros Hok H. destruct c; cbn [bstep] in H.
+  - destruct (find_desc ds method) as [d|]; [|discriminate].
+    apply BuilderIds.run_descriptor_nstep in H. apply H.
+  - inversion H as [H']. apply begin_function_spec in H'.
+    destruct H' as [(f & _ & -> & _)|[(_ & _ & _ & -> & _)|(_ & id & s1 & Hc & _ & ->)]]; try reflexivity.
+    destruct (id_adv_frame s s1 (id_choice_adv _ _ _ _ Hc)) as (_ & _ & _ & Hh & _). exact Hh.
+  - inversion H as [H']. apply BuilderIds.end_function_fstep in H'. apply H'.
+  - inversion H as [H']. apply (function_parameter_spec s rty s' o Hok) in H'.
+    destruct H' as [(_ & -> & _)|[(f & _ & _ & -> & _)|(f & fn & _ & _ & _ & _ & ->)]]; reflexivity.
+  - inversion H as [H']. apply (begin_block_gen_spec true s lid s' o Hok) in H'.
+    destruct H' as [(_ & -> & _)|[(f & b & _ & _ & -> & _)|[(f & _ & _ & _ & _ & -> & _)|
+                    (f & fn & id & s1 & _ & _ & _ & Hc & _ & ->)]]]; try reflexivity.
+    destruct (id_adv_frame s s1 (id_choice_adv _ _ _ _ Hc)) as (_ & _ & _ & Hh & _). exact Hh.
+  - inversion H as [H']. apply (begin_block_gen_spec false s lid s' o Hok) in H'.
+    destruct H' as [(_ & -> & _)|[(f & b & _ & _ & -> & _)|[(f & _ & _ & _ & _ & -> & _)|
+                    (f & fn & id & s1 & _ & _ & _ & Hc & _ & ->)]]]; try reflexivity.
+    destruct (id_adv_frame s s1 (id_choice_adv _ _ _ _ Hc)) as (_ & _ & _ & Hh & _). exact Hh.
+  - inversion H as [H']. apply BuilderIds.select_function_fstep in H'. apply H'.
+  - inversion H as [H']. apply BuilderIds.select_block_fstep in H'. apply H'.
+  - inversion H as [H']. apply BuilderIds.pop_instruction_fstep in H'. apply H'.
+  - destruct (take_id s) as [[id s1]|] eqn:ET; inversion H; subst; [|reflexivity].
+    apply take_id_some in ET. destruct ET as (_ & _ & ->). reflexivity.
+  - inversion H; subst. reflexivity.
+Qed.
+
+Lemma step_version k_fc ds s c s' o :
+  sel_ok s -> bstep k_fc ds s c = Some (s', o) ->
+  forall r, last_version (hdr_version s) (c :: r) = last_version (hdr_version s') r.
+Proof.
+  intros Hok H r. pose proof (step_header k_fc ds s c s' o Hok H) as Hh.
+  destruct c; cbn [last_version]; try (rewrite (hdr_version_frame s s' Hh); reflexivity).
+  rewrite Hh. reflexivity.
+Qed.
+
+Lemma run_version k_fc ds cs : forall s s' os,
+  sel_ok s -> brun k_fc ds s cs = Some (s', os) -> hdr_version s' = last_version (hdr_version s) cs.
+Proof.
+  induction cs as [|c r IH]; intros s s' os Hok H; cbn [brun] in H.
+  - inversion H; subst. reflexivity.
+  - destruct (bstep k_fc ds s c) as [[s1 o]|] eqn:E; [|discriminate].
+    destruct (brun k_fc ds s1 r) as [[s2 os']|] eqn:E2; [|discriminate].
+    inversion H; subst. rewrite (step_version k_fc ds s c s1 o Hok E r).
+    apply (IH s1 s' os'); [|exact E2]. apply (sel_ok_step _ _ _ _ _ _ Hok E).
+Qed.
+
+Lemma finish_version s h : fst (finish s) = Some h -> h_version h = hdr_version s.
+Proof.
+  unfold finish, hdr_version. cbn [fst]. intros H. inversion H; subst.
+  destruct (bs_header s); reflexivity.
+Qed.
+
+(** module() of any history from a new builder: a header whose bound is the
+    next id and whose version is the last one set (1.6 if never set) *)
+Theorem built_header k_fc ds cs s' os :
+  brun k_fc ds bnew cs = Some (s', os) ->
+  exists h, fst (finish s') = Some h /\ snd (finish s') = bs_module s'
+    /\ h_bound h = bs_next s' /\ h_version h = last_version default_version cs.
+Proof.
+  intros H. destruct (BuilderIds.finish_header s') as (h & Hh). exists h.
+  split; [exact Hh|]. split; [reflexivity|]. split; [apply (BuilderIds.bound_is_next _ _ Hh)|].
+  rewrite (finish_version s' h Hh). apply (run_version k_fc ds cs bnew s' os sel_ok_new H).
+Qed.
+
+Example default_version_is_1_6 : default_version = 1 * 65536 + 6 * 256.
+Proof. reflexivity. Qed.
+
+(** the structural half of C06, in one statement *)
+Theorem built_module_survives_load cs s' os :
+  brun k_function_control descriptors bnew cs = Some (s', os) ->
+  forallb simple_call cs = true -> ends_closed k_function_control descriptors bnew cs -> complete s' ->
+  exists h, finish s' = (Some h, bs_module s')
+    /\ h_bound h = bs_next s' /\ h_version h = last_version default_version cs
+    /\ wc_module rclass (bs_module s')
+    /\ real_load (all_insts (bs_module s'))
+       = LCont {| l_module := bs_module s'; l_header := None; l_function := None; l_block := None |}.
+Proof.
+  intros Hrun Hs He Hc. destruct (built_header _ _ _ _ _ Hrun) as (h & H1 & H2 & H3 & H4).
+  exists h. split; [rewrite (surjective_pairing (finish s')), H1, H2; reflexivity|].
+  split; [exact H3|]. split; [exact H4|].
+  split; [apply (built_module_wc cs s' os Hrun Hs He Hc)|apply (built_module_real_load cs s' os Hrun Hs He Hc)].
+Qed.
+
+Print Assumptions descs_ok.
+Print Assumptions descs_declared.
+Print Assumptions bwc_new.
+Print Assumptions bwc_step.
+Print Assumptions bwc_run.
+Print Assumptions built_wc.
+Print Assumptions built_module_wc.
+Print Assumptions built_module_wellop.
+Print Assumptions built_module_reloads.
+Print Assumptions built_module_real_load.
+Print Assumptions end_function_with_open_block_rejected.
+Print Assumptions end_function_with_open_block_breaks_invariant.
+Print Assumptions built_header.
+Print Assumptions built_module_survives_load.
